@@ -153,13 +153,14 @@ func (r *recorder) Abort(ctx context.Context, mod api.Module, def api.FunctionDe
 
 // Case is the replayable form.
 type Case struct {
-	Lib      *wasmgen.Module `json:"lib,omitempty"` // second module ("lib") whose exports Module imports (wasm-to-wasm calls)
-	Module   *wasmgen.Module `json:"module"`
-	Script   []runner.Call   `json:"script"`
-	Fuel     int32           `json:"fuel"`
-	Subset   []uint32        `json:"subset,omitempty"`                 // listened wasm function indices (nil = all functions incl. host)
-	Multi    bool            `json:"multi_listener_factory,omitempty"` // two recorders combined by experimental.MultiFunctionListenerFactory
-	CloseCtx bool            `json:"close_on_context_done,omitempty"`  // runtime built WithCloseOnContextDone(true): termination checks at loop headers
+	Lib       *wasmgen.Module `json:"lib,omitempty"` // second module ("lib") whose exports Module imports (wasm-to-wasm calls)
+	Module    *wasmgen.Module `json:"module"`
+	Script    []runner.Call   `json:"script"`
+	Fuel      int32           `json:"fuel"`
+	Subset    []uint32        `json:"subset,omitempty"`                 // listened wasm function indices (nil = all functions incl. host)
+	FromBytes bool            `json:"instantiate_from_bytes,omitempty"` // Runtime.InstantiateWithConfig: the code is released when the instance closes
+	Multi     bool            `json:"multi_listener_factory,omitempty"` // two recorders combined by experimental.MultiFunctionListenerFactory
+	CloseCtx  bool            `json:"close_on_context_done,omitempty"`  // runtime built WithCloseOnContextDone(true): termination checks at loop headers
 }
 
 type runResult struct {
@@ -232,6 +233,7 @@ func run(engine string, c *Case, listen bool) runResult {
 		res.tr.Inst = wz.Outcome{Kind: wz.KOther, Detail: "compile: " + err.Error()}
 		return res
 	}
+	s.FromBytes = c.FromBytes
 	s.Host.MaxLog, s.Host.Global = 0, gl // unlimited: the logs are ground truth here (fuel bounds the number of calls)
 	in := s.Instantiate(lctx, nil)
 	cut := func() {
@@ -546,6 +548,9 @@ func RunCase(c *Case) (string, []string, bool) {
 	if c.Multi {
 		labels = append(labels, "multi-listener-factory")
 	}
+	if c.FromBytes {
+		labels = append(labels, "instantiated-from-bytes")
+	}
 	for _, l := range a.tr.HostLog {
 		if strings.HasPrefix(l, "closer(") {
 			labels = append(labels, "module-closed-by-host-mid-call")
@@ -634,7 +639,7 @@ func prop(t *rapid.T) {
 		cfg.Lib, cfg.LibName = lib, "lib"
 	}
 	m := wasmgen.Generate(t, cfg)
-	c := &Case{Module: m, Lib: lib, Fuel: cfg.FuelInit, CloseCtx: closeCtx, Multi: rapid.IntRange(0, 3).Draw(t, "multi") == 0}
+	c := &Case{Module: m, Lib: lib, Fuel: cfg.FuelInit, CloseCtx: closeCtx, Multi: rapid.IntRange(0, 3).Draw(t, "multi") == 0, FromBytes: rapid.IntRange(0, 2).Draw(t, "frombytes") == 0}
 	ex := m.Exports()
 	n := rapid.IntRange(1, 5).Draw(t, "ncalls")
 	for i := 0; i < n; i++ {
